@@ -90,6 +90,22 @@ CHECKS = {
              "library whose inlining thresholds differ; all are compared with the reference model, which never inlines or simplifies.",
         note="Trusted: reference model. The always-inline build bounds caller growth (5x / 1000 insns) to keep nested call chains finite.",
         design="3/C04"),
+    "C05": dict(
+        technique=TECH + "differential execution against a gcc-only build: c2mir-compiled MIR callers (interp, gen -O0..-O3, lazy, lazy BB; ASan/assert "
+                         "build) calling gcc-compiled callees that print every received argument and check stack alignment",
+        text="Generated signatures with 0-16 parameters of every C scalar type, by-value structs of every SysV passing class, every result type, and "
+             "variadic callees with named integer/fp parameters beyond the register files and tails of up to 14 mixed values; boundary values per "
+             "type. The MIR side (prototypes, block types, extensions) is what c2mir derives from the C declarations.",
+        note="Trusted: gcc as the C ABI. Multiple-result prototypes and raw MIR block types that no C declaration produces are outside this check.",
+        design="3/C05"),
+    "C06": dict(
+        technique=TECH + "differential execution against a gcc-only build in the callee direction, with register/control-word sentinels checked by the "
+                         "native caller and alloca alignment checked in the MIR callee",
+        text="gcc-compiled code calls c2mir-compiled MIR functions (same signature space as C05, variadic ones reading their tail with va_arg) through "
+             "their addresses under every interface; rbx, r12-r15, MXCSR and the x87 control word are sampled around each call; the callee prints its "
+             "parameters, uses a 16-byte aligned alloca block and calls out to native code.",
+        note="Trusted: gcc as the C ABI; rbp/rsp integrity is implied by the caller continuing to run and print correctly.",
+        design="3/C06"),
     "C08": dict(
         technique=TECH + "differential execution against the platform compiler: layout probes (sizeof/_Alignof/offsetof/bit-field byte images) and "
                          "by-value passing between c2m-compiled and gcc-compiled code in both directions; c2m is the ASan/UBSan/assert build",
